@@ -222,9 +222,10 @@ type c17ConnSpec struct {
 }
 
 type c17Op struct {
-	kind     int // 1 observe, 2 mark closed, 3 disconnect
+	kind     int // 1 observe, 2 mark closed, 3 disconnect, 4 observe with a disconnect of conn `during` at the listenAddrs() call
 	conn     int
 	observed c17Addr
+	during   int
 }
 
 type c17Script struct {
@@ -311,7 +312,16 @@ func c17ExecIn(t *testing.T, out *verifh.Out, sc *c17Script, e2e bool) []int64 {
 	if e2e {
 		bus = eventbus.NewBus()
 	}
+	// hook: runs once, inside the next listenAddrs() call.  The manager calls
+	// listenAddrs() in the middle of shouldRecordObservation, before it takes
+	// its lock, so this is where another goroutine's close + Disconnected
+	// notification can interleave with an observation being processed.
+	var hook func()
 	o, err := newManagerWithListenAddrs(bus, func() []ma.Multiaddr {
+		if h := hook; h != nil {
+			hook = nil
+			h()
+		}
 		return append([]ma.Multiaddr(nil), listen...)
 	})
 	if err != nil {
@@ -378,7 +388,7 @@ func c17ExecIn(t *testing.T, out *verifh.Out, sc *c17Script, e2e bool) []int64 {
 	for _, op := range sc.ops {
 		c := conns[op.conn]
 		switch op.kind {
-		case 1:
+		case 1, 4:
 			a := op.observed
 			otw := int64(-1)
 			var fam, proto int64
@@ -392,9 +402,34 @@ func c17ExecIn(t *testing.T, out *verifh.Out, sc *c17Script, e2e bool) []int64 {
 				}
 				return 0
 			}
-			line = append(line, 1, int64(op.conn), b2i(a.lb), b2i(a.n64), b2i(a.relay), otw, fam, proto)
+			line = append(line, int64(op.kind), int64(op.conn), b2i(a.lb), b2i(a.n64), b2i(a.relay), otw, fam, proto)
 			prev, had := o.connObservedTWAddrs[c]
+			hookFired := false
+			if op.kind == 4 {
+				d := conns[op.during]
+				hook = func() {
+					hookFired = true
+					d.closed = true
+					doDisconnect(d) // removeConn(d), before the worker takes o.mu
+				}
+			}
 			doObserve(c, ma.StringCast(a.full()))
+			hook = nil
+			if op.kind == 4 {
+				line = append(line, int64(op.during), b2i(hookFired))
+				if out != nil {
+					switch {
+					case !hookFired:
+						out.Cover("during.hook_not_reached")
+					case op.during == op.conn && had:
+						out.Cover("during.closed_observed_conn_that_had_credit")
+					case op.during == op.conn:
+						out.Cover("during.closed_observed_conn")
+					default:
+						out.Cover("during.closed_other_conn")
+					}
+				}
+			}
 			now, has := o.connObservedTWAddrs[c]
 			if out != nil {
 				switch {
@@ -677,6 +712,16 @@ func c17Gen(r *verifh.Rand, nops int, malformed bool) *c17Script {
 			gone[c] = true
 		}
 	}
+	// close-during-observation interleavings
+	for i := range sc.ops {
+		if sc.ops[i].kind == 1 && r.Chance(1, 10) {
+			sc.ops[i].kind = 4
+			sc.ops[i].during = sc.ops[i].conn
+			if r.Chance(1, 3) {
+				sc.ops[i].during = r.Intn(nc)
+			}
+		}
+	}
 	if malformed {
 		// the malformed stream: reports only from classes that never count,
 		// repeated reports from one group, disconnects of unknown connections
@@ -791,7 +836,7 @@ func c17ScriptFromCase(t *testing.T, toks []int64) *c17Script {
 			t.Fatalf("c17 replay: connection %d out of range", op.conn)
 		}
 		switch kind {
-		case 1:
+		case 1, 4:
 			lb, n64, rl, otw := next() != 0, next() != 0, next() != 0, next()
 			next()
 			next()
@@ -808,6 +853,13 @@ func c17ScriptFromCase(t *testing.T, toks []int64) *c17Script {
 			}
 			if !found {
 				t.Fatalf("c17 replay: no observed address of that class")
+			}
+			if kind == 4 {
+				op.during = int(next())
+				next() // recorded "fired"
+				if op.during < 0 || op.during >= nc {
+					t.Fatalf("c17 replay: connection %d out of range", op.during)
+				}
 			}
 		case 2, 3:
 		default:
